@@ -443,6 +443,11 @@ func RandLeafText(r *rand.Rand, k Kind) string {
 				}
 			}
 		}
+		if r.Intn(2) == 0 {
+			// the shortest decimal that identifies f among float32 values (what fmt and encoding/json print);
+			// as a float64 it may lie slightly outside [-MaxFloat32, MaxFloat32] and still denotes f
+			return strconv.FormatFloat(float64(f), 'g', -1, 32)
+		}
 		return FmtFloat(float64(f))
 	case k == Float64:
 		var f float64
@@ -522,8 +527,8 @@ func ParseLeaf(k Kind, text string) (v reflect.Value, ok bool) {
 		}
 		v.SetFloat(f)
 	case k == Float32:
-		f, err := strconv.ParseFloat(text, 64)
-		if err != nil || math.Abs(f) > math.MaxFloat32 {
+		f, err := strconv.ParseFloat(text, 32)
+		if err != nil {
 			return v, false
 		}
 		v.SetFloat(f)
